@@ -14,7 +14,7 @@ func printNode returns (err)
   props C03 C08 C17
   requires @tree TreeInv() && node in tnodes && typeis(output, "*bufio.Writer") && payload(output) != 0
   decreases tmax - tdepth[node]
-  modifies ghost(bufSticky, sinkFailed, sinkPend, prLen, prSink, prArg, prArgs)
+  modifies ghost(bufSticky, sinkFailed, sinkPend, prLen, prSink, prArg, prArgs, prFmt)
   ensures @sink [C17] BufStep(payload(output))
   // no child is dropped: at least one row per child, and a child whose subtree is not joined into its row is
   // followed by the rows of ITS children
@@ -33,9 +33,9 @@ func printNode returns (err)
   }
   // every child (in Keys() order) gets exactly ONE row, printed before its subtree, showing the child's own total and
   // (when it is not joined with its sole leaf) its own name; nothing else is printed in between
-  ghost after call 1 Fprintf { assert @leaf-row [C03 C12] prLen == at(loop1, prLen) + 1 && PrintedF(prLen - 1, 0, child.Total) && PrintedStr(prLen - 1, 2, child.Name) }
-  ghost after call 2 Fprintf { assert @joined-row [C03 C12] prLen == at(loop1, prLen) + 1 && PrintedF(prLen - 1, 0, child.Total) }
-  ghost after call 3 Fprintf { assert @branch-row [C03 C12] prLen == at(loop1, prLen) + 1 && PrintedF(prLen - 1, 0, child.Total) && PrintedStr(prLen - 1, 2, child.Name) }
+  ghost after call 1 Fprintf { assert @leaf-row [C03 C12] prLen == at(loop1, prLen) + 1 && prFmt[prLen - 1] == "%10.2f | %s%s\n" && PrintedF(prLen - 1, 0, child.Total) && PrintedStr(prLen - 1, 2, child.Name) }
+  ghost after call 2 Fprintf { assert @joined-row [C03 C12] prLen == at(loop1, prLen) + 1 && prFmt[prLen - 1] == "%10.2f | %s%s\n" && PrintedF(prLen - 1, 0, child.Total) }
+  ghost after call 3 Fprintf { assert @branch-row [C03 C12] prLen == at(loop1, prLen) + 1 && prFmt[prLen - 1] == "%10.2f | %s%s\n" && PrintedF(prLen - 1, 0, child.Total) && PrintedStr(prLen - 1, 2, child.Name) }
   ghost before call 1 printNode { assert @row-before-subtree [C03 C12] prLen == at(loop1, prLen) + 1 && #arg0 == child && #arg1 == level + 1 }
 
 // getJump returns the names along a sole-branch chain - but only if the chain ends in a leaf: a non-empty jump
@@ -57,7 +57,7 @@ func printNodeCollapsed returns (err)
   props C03 C08 C17
   requires @tree TreeInv() && node in tnodes && typeis(output, "*bufio.Writer") && payload(output) != 0
   decreases tmax - tdepth[node]
-  modifies ghost(bufSticky, sinkFailed, sinkPend, prLen, prSink, prArg, prArgs, jlen)
+  modifies ghost(bufSticky, sinkFailed, sinkPend, prLen, prSink, prArg, prArgs, prFmt, jlen)
   ensures @sink [C17] BufStep(payload(output))
   ensures @reports-loss [C17] err == nil ==> bufSticky[payload(output)] == old(bufSticky[payload(output)])
   ensures @a-row-per-child [C03 C12] err == nil ==> prLen >= old(prLen) + len(node.Children)
@@ -69,8 +69,8 @@ func printNodeCollapsed returns (err)
   }
   // one row per child with the child's total: the joined path when the subtree is a chain (then the subtree is
   // skipped - see getJump), else the child's own name followed by its subtree
-  ghost after call 1 Fprintf { assert @jump-row [C03 C12] prLen == at(loop1, prLen) + 1 && PrintedF(prLen - 1, 0, child.Total) && len(jump) > 0 }
-  ghost after call 2 Fprintf { assert @branch-row [C03 C12] prLen == at(loop1, prLen) + 1 && PrintedF(prLen - 1, 0, child.Total) && PrintedStr(prLen - 1, 2, child.Name) && len(jump) == 0 }
+  ghost after call 1 Fprintf { assert @jump-row [C03 C12] prLen == at(loop1, prLen) + 1 && prFmt[prLen - 1] == "%10.2f | %s%s\n" && PrintedF(prLen - 1, 0, child.Total) && len(jump) > 0 }
+  ghost after call 2 Fprintf { assert @branch-row [C03 C12] prLen == at(loop1, prLen) + 1 && prFmt[prLen - 1] == "%10.2f | %s%s\n" && PrintedF(prLen - 1, 0, child.Total) && PrintedStr(prLen - 1, 2, child.Name) && len(jump) == 0 }
   ghost before call 1 printNodeCollapsed { assert @row-before-subtree [C03 C12] prLen == at(loop1, prLen) + 1 && #arg0 == child && #arg1 == level + 1 }
 
 // ---------------------------------------------------------------------------------------------
@@ -114,7 +114,7 @@ func (*balanceReporter).Process returns (err)
 func (*balanceReporter).Flush returns (err)
   props C03 C08 C17
   requires @args BalInv(r)
-  modifies ghost(bufSticky, sinkFailed, sinkPend, prLen, prSink, prArg, prArgs)
+  modifies ghost(bufSticky, sinkFailed, sinkPend, prLen, prSink, prArg, prArgs, prFmt)
   ensures @sink [C17] BufStep(r.output)
   ensures @reports-loss [C17] err == nil ==> !bufSticky[r.output] && sinkPend[bufSink[r.output]] == 0
 
@@ -152,7 +152,7 @@ func (*balanceReporterCollapsed).Process returns (err)
 func (*balanceReporterCollapsed).Flush returns (err)
   props C03 C08 C17
   requires @args BalCInv(r)
-  modifies ghost(bufSticky, sinkFailed, sinkPend, prLen, prSink, prArg, prArgs, jlen)
+  modifies ghost(bufSticky, sinkFailed, sinkPend, prLen, prSink, prArg, prArgs, prFmt, jlen)
   ensures @sink [C17] BufStep(r.output)
   ensures @reports-loss [C17] err == nil ==> !bufSticky[r.output] && sinkPend[bufSink[r.output]] == 0
 
@@ -215,7 +215,7 @@ func (*balanceSingleReporter).Process returns (err)
 func (*balanceSingleReporter).Flush returns (err)
   props C03 C08 C17 C05
   requires @args BalSInv(r)
-  modifies ghost(bufSticky, sinkFailed, sinkPend, prLen, prSink, prArg, prArgs, jlen)
+  modifies ghost(bufSticky, sinkFailed, sinkPend, prLen, prSink, prArg, prArgs, prFmt, jlen)
   ensures @sink [C17] BufStep(r.output)
   ensures @reports-loss [C17] err == nil ==> !bufSticky[r.output] && sinkPend[bufSink[r.output]] == 0
 
@@ -245,7 +245,7 @@ func Balance returns (err)
   requires @streams logStream != nil && dbStream != nil
   requires @sink bc.ReporterConfig.Output != nil && !typeis(bc.ReporterConfig.Output, "*bufio.Writer") && !typeis(bc.ReporterConfig.Output, "*encoding/csv.Writer") && TreeInv()
   modifies *
-  modifies ghost(cbLen, cbErr, cbNode, cbStop, cbRet, cbLineNo, cbLine, cbHeader, cbElems, cbNElems, scRd, scPos, privLo, evOf, accKey, accP, accN, accH, bufSink, bufSticky, sinkFailed, sinkPend, prLen, prSink, prArg, prArgs, csvLen, csvW, csvN, csvRow, tnodes, tdepth, tmax, tmapOf, jlen, tvLen, tv, tseg, tvSet, adLen, adName, adVal, adSep, adRoot, procLen, procTime, procSrc)
+  modifies ghost(cbLen, cbErr, cbNode, cbStop, cbRet, cbLineNo, cbLine, cbHeader, cbElems, cbNElems, scRd, scPos, privLo, evOf, accKey, accP, accN, accH, bufSink, bufSticky, sinkFailed, sinkPend, prLen, prSink, prArg, prArgs, prFmt, csvLen, csvW, csvN, csvRow, tnodes, tdepth, tmax, tmapOf, jlen, tvLen, tv, tseg, tvSet, adLen, adName, adVal, adSep, adRoot, procLen, procTime, procSrc)
   let out := payload(bc.ReporterConfig.Output)
   let lrd := payload(logStream)
   let drd := payload(dbStream)
@@ -263,18 +263,18 @@ func Balance returns (err)
 // ---------------------------------------------------------------------------------------------
 type balance.balanceCmd(logStream, dbStream, bc) returns (err)
   modifies *
-  modifies ghost(cbLen, cbErr, cbNode, cbStop, cbRet, cbLineNo, cbLine, cbHeader, cbElems, cbNElems, scRd, scPos, privLo, evOf, accKey, accP, accN, accH, bufSink, bufSticky, sinkFailed, sinkPend, prLen, prSink, prArg, prArgs, csvLen, csvW, csvN, csvRow, tnodes, tdepth, tmax, tmapOf, jlen, tvLen, tv, tseg, tvSet, adLen, adName, adVal, adSep, adRoot, procLen, procTime, procSrc, lastOpen, cfgRd)
+  modifies ghost(cbLen, cbErr, cbNode, cbStop, cbRet, cbLineNo, cbLine, cbHeader, cbElems, cbNElems, scRd, scPos, privLo, evOf, accKey, accP, accN, accH, bufSink, bufSticky, sinkFailed, sinkPend, prLen, prSink, prArg, prArgs, prFmt, csvLen, csvW, csvN, csvRow, tnodes, tdepth, tmax, tmapOf, jlen, tvLen, tv, tseg, tvSet, adLen, adName, adVal, adSep, adRoot, procLen, procTime, procSrc, lastOpen, cfgRd)
 
 type balance.withFileReaders(fileNames, cb) returns (err)
   modifies *
-  modifies ghost(cbLen, cbErr, cbNode, cbStop, cbRet, cbLineNo, cbLine, cbHeader, cbElems, cbNElems, scRd, scPos, privLo, evOf, accKey, accP, accN, accH, bufSink, bufSticky, sinkFailed, sinkPend, prLen, prSink, prArg, prArgs, csvLen, csvW, csvN, csvRow, tnodes, tdepth, tmax, tmapOf, jlen, tvLen, tv, tseg, tvSet, adLen, adName, adVal, adSep, adRoot, procLen, procTime, procSrc, lastOpen, cfgRd)
+  modifies ghost(cbLen, cbErr, cbNode, cbStop, cbRet, cbLineNo, cbLine, cbHeader, cbElems, cbNElems, scRd, scPos, privLo, evOf, accKey, accP, accN, accH, bufSink, bufSticky, sinkFailed, sinkPend, prLen, prSink, prArg, prArgs, prFmt, csvLen, csvW, csvN, csvRow, tnodes, tdepth, tmax, tmapOf, jlen, tvLen, tv, tseg, tvSet, adLen, adName, adVal, adSep, adRoot, procLen, procTime, procSrc, lastOpen, cfgRd)
 
 func NewBalanceCommand$1$1$1 returns (err)
   props C16 C06 C15 C11 C03 C08
   requires @streams len(streams) == 2 && o != nil && balance != nil
   dyncall 1 balance.balanceCmd
   modifies *
-  modifies ghost(cbLen, cbErr, cbNode, cbStop, cbRet, cbLineNo, cbLine, cbHeader, cbElems, cbNElems, scRd, scPos, privLo, evOf, accKey, accP, accN, accH, bufSink, bufSticky, sinkFailed, sinkPend, prLen, prSink, prArg, prArgs, csvLen, csvW, csvN, csvRow, tnodes, tdepth, tmax, tmapOf, jlen, tvLen, tv, tseg, tvSet, adLen, adName, adVal, adSep, adRoot, procLen, procTime, procSrc, lastOpen, cfgRd)
+  modifies ghost(cbLen, cbErr, cbNode, cbStop, cbRet, cbLineNo, cbLine, cbHeader, cbElems, cbNElems, scRd, scPos, privLo, evOf, accKey, accP, accN, accH, bufSink, bufSticky, sinkFailed, sinkPend, prLen, prSink, prArg, prArgs, prFmt, csvLen, csvW, csvN, csvRow, tnodes, tdepth, tmax, tmapOf, jlen, tvLen, tv, tseg, tvSet, adLen, adName, adVal, adSep, adRoot, procLen, procTime, procSrc, lastOpen, cfgRd)
   // the command is actually run (exactly this call) and its error is what the closure returns
   ghost after dyncall 1 { let cmdErr := #ret }
   ensures @runs-the-command [C17 C16] err == cmdErr
@@ -288,7 +288,7 @@ func NewBalanceCommand$1$1 returns (err)
   requires @loaded o != nil && cu.WithFileReaders != nil
   dyncall 1 balance.withFileReaders
   modifies *
-  modifies ghost(cbLen, cbErr, cbNode, cbStop, cbRet, cbLineNo, cbLine, cbHeader, cbElems, cbNElems, scRd, scPos, privLo, evOf, accKey, accP, accN, accH, bufSink, bufSticky, sinkFailed, sinkPend, prLen, prSink, prArg, prArgs, csvLen, csvW, csvN, csvRow, tnodes, tdepth, tmax, tmapOf, jlen, tvLen, tv, tseg, tvSet, adLen, adName, adVal, adSep, adRoot, procLen, procTime, procSrc, lastOpen, cfgRd)
+  modifies ghost(cbLen, cbErr, cbNode, cbStop, cbRet, cbLineNo, cbLine, cbHeader, cbElems, cbNElems, scRd, scPos, privLo, evOf, accKey, accP, accN, accH, bufSink, bufSticky, sinkFailed, sinkPend, prLen, prSink, prArg, prArgs, prFmt, csvLen, csvW, csvN, csvRow, tnodes, tdepth, tmax, tmapOf, jlen, tvLen, tv, tseg, tvSet, adLen, adName, adVal, adSep, adRoot, procLen, procTime, procSrc, lastOpen, cfgRd)
   // the command is actually run (exactly this call) and its error is what the closure returns
   ghost after dyncall 1 { let cmdErr := #ret }
   ensures @runs-the-command [C17 C16] err == cmdErr
